@@ -941,6 +941,11 @@ where
                 }
             }
         }
+        // Different derivations can spell the same sentence (e.g. if a rule has two empty
+        // productions): unless we remove the duplicates, their number multiplies at every level
+        // of the recursion.
+        sts.sort_unstable();
+        sts.dedup();
         sts
     }
 }
